@@ -29,6 +29,8 @@ func main() {
 	switch *prop {
 	case "C15":
 		runC15(r, *n, w)
+	case "C18":
+		runC18(r, *n, w)
 	default:
 		fmt.Fprintln(os.Stderr, "unknown -prop", *prop)
 		os.Exit(2)
